@@ -270,6 +270,18 @@ CLAIMED["C20"] = {
     "technique": _T + ": order/entropy/schedule taint classification of every unordered source to its consumer",
 }
 
+CLAIMED["C05"] = {
+    "text": "Decides the clauses of 'every evaluation metric equals its definition' that are relations between pieces of the code, for all inputs at once - necessary conditions, not the numerical definitions: "
+            "every multi-target regression metric applies the single-target metric of the same name, column by column over both operands (axis 1 of both, zipped); "
+            "in the single-target regression metrics every sum or difference combines terms of the same homogeneity degree in the data (a dimensional analysis over the provided trait methods: prediction and truth have degree 1, products add and quotients subtract degrees, literals below 1e-6 are regularisers) - explained_variance of the pinned tree subtracts the mean error from a sum of squares (known finding with the failing input); "
+            "the axis of the confusion matrix that is filled from the prediction (read off map_prediction_to_idx, its call and the indexing of the increment) is the one the binary precision fixes, the binary recall fixes the other, and split_one_vs_all takes the false positives from the prediction's line - binary precision and recall of the pinned tree fix the wrong axes, i.e. are exchanged (two known findings with the failing input); "
+            "every (prediction, truth) pair adds exactly one to one cell of a square matrix over the class list, both indices looked up in one class map; accuracy is trace over total; split_one_vs_one enumerates the pairs i < j (it included the diagonal: repaired). "
+            "Not decided: the numerical definitions themselves - MCC, F-beta, ROC / AUC and its treatment of ties and of the first threshold, log-loss, the regression formulas beyond their degrees, silhouette, Pearson, permutation invariance.",
+    "design_ref": "DESIGN.md section 4, C05",
+    "note": "Trusted: rustc resolution/typeck, the fact dump; in ToConfusionMatrix::confusion_matrix(&self, ground_truth) the receiver is the prediction. Claimed late in the build (section 5).",
+    "technique": _T + ": delegation-name agreement, homogeneity-degree (dimensional) abstract interpretation of the metric formulas, axis-role agreement between the construction of the confusion matrix and its consumers",
+}
+
 CLAIMED["C11"] = {
     "text": "Decides, for all regression datasets at once, the clauses of 'least-squares estimators return a minimiser of their documented objective' that are visible in the shape of the code - necessary conditions, not optimality: "
             "the intercept an elastic-net fit publishes depends on the records (at the optimum it is mean(y) - mean(x).w; an intercept taken from the targets alone is optimal only for centred features - violated by both elastic-net fits of the pinned tree, recorded as a known finding with the failing input); "
@@ -316,7 +328,6 @@ CLAIMED["C17"] = {
 }
 
 NOT_APPLICABLE = {
-    "C05": "every clause equates a returned number with a textbook formula over unbounded inputs; no pairing/ordering/agreement structure is necessary for a wrong value, and a frozen-formula matcher would fire on any algebraic refactor (DESIGN.md section 5)",
     "C06": "kernel entry values, symmetry, PSD-ness, dense/sparse agreement and the merge-replay stop rule are relations between computed floating-point values; no sound static argument in reach bounds them (the hash-order cluster numbering in the same file is decided under C20)",
 }
 
